@@ -978,6 +978,36 @@ func (w *world) writeErrorOutage() {
 	w.fixedEnd(ca, cb, "fixed-write-error-outage")
 }
 
+// refusedSetMtuMessageMode (C01, fixed scenario, message mode): SetMtu to a smaller value is refused
+// while a larger segment is still unacknowledged; the refusal must leave nothing behind — a later
+// Write that fits one segment of the MTU still in force is ONE message and is read back as one.
+func (w *world) refusedSetMtuMessageMode() {
+	ca, cb := w.fixedPair("refused SetMtu, then a message between the refused and the real mss (sessions, message mode)")
+	w.now = 1000
+	sizes := []int{1000, 800, 577, 1376}
+	w.write(w.a, [][]byte{w.payload(w.a, sizes[0])}) // outstanding: one segment of 1000 bytes
+	if w.a.s.SetMtu(600) {
+		w.o.Note("refusedSetMtuMessageMode: SetMtu(600) was accepted with a 1000-byte segment outstanding")
+	}
+	w.ops = append(w.ops, "a.SetMtu(600)")
+	for _, n := range sizes[1:] {
+		w.write(w.a, [][]byte{w.payload(w.a, n)})
+	}
+	for i := 0; i < 50 && !w.aborted; i++ {
+		w.exchange(false)
+		w.now += 10
+	}
+	for i, n := range sizes {
+		before := len(w.b.got)
+		w.read(w.b, 65536)
+		if got := len(w.b.got) - before; got != n && !w.aborted {
+			w.viol("sess-msg-boundary", fmt.Sprintf("message mode: a wrote messages of %v bytes (SetMtu(600) refused after the first); Read #%d of b with a 64 KiB buffer returned %d bytes, want the whole message of %d", sizes, i+1, got, n))
+			break
+		}
+	}
+	w.fixedEnd(ca, cb, "fixed-refused-setmtu-message-mode")
+}
+
 // Run is the component entry point.
 func Run(o *hx.Out, g *hx.Rng, tier string) {
 	o.Res.Rule = "a case is one history of two real sessions (settings, Write/Read incl. blocking, manual update, per-datagram fates, fair drain, Close); configurations cycle through every cipher constructor x a FEC grid; histories without cipher and FEC are compared op by op with the Lean session model, the others run implementation-side oracles only; distinct = distinct op sequences (hash)"
@@ -987,6 +1017,7 @@ func Run(o *hx.Out, g *hx.Rng, tier string) {
 	w.oobAsymmetric()
 	w.stalledSessionLostWins()
 	w.writeErrorOutage()
+	w.refusedSetMtuMessageMode()
 	n := 240
 	if tier == "thorough" {
 		n = 4500
